@@ -4,12 +4,16 @@ import (
 	"errors"
 	"math/rand"
 	"strings"
+	"sync"
 	"time"
 )
 
 const letters = "abcdefghijklmnopqrstuvwxyzABCDEFGHIJKLMNOPQRSTUVWXYZ0123456789_-"
 
 var randSource = rand.New(rand.NewSource(time.Now().UnixNano()))
+
+// randSource is shared by all instances and rand.Rand is not safe for concurrent use
+var randSourceMu sync.Mutex
 
 func ParseStringFunc(shoot string) (string, []string, error) {
 	openIdx := strings.IndexRune(shoot, '(')
@@ -41,8 +45,10 @@ func RandStringRunes(n int64, s string) string {
 	}
 	var letterRunes = []rune(s)
 	b := make([]rune, n)
+	randSourceMu.Lock()
 	for i := range b {
 		b[i] = letterRunes[randSource.Intn(len(letterRunes))]
 	}
+	randSourceMu.Unlock()
 	return string(b)
 }
